@@ -64,6 +64,17 @@ def dump_bytecode(src):
     return ("ok", d0, cdump(flow.scfg))
 
 
+def c12_labelings(g):
+    """Relabellings explored in addition to the BFS naming: names that interleave sibling loops / arms (evens-then-odds) and names
+    that tie under numeric / case-folded keys.  Small classes get all three; larger front-end graphs alternate (by a
+    fixed function of the graph) between the interleaving and the tie labelling."""
+    n = len(g)
+    if n <= 5:
+        return labelings(n, "eo") + labelings(n, "ties")
+    pick = sum(len(r) + sum(r) for r in g) % 2
+    return labelings(n, "eo") if pick == 0 else labelings(n, "ties1")
+
+
 def explore(fn, arg, bound, acc: Acc, case, label):
     """All runs of fn(arg) with at most ``bound`` non-default set orders; outcomes must coincide."""
     ref = [None]
@@ -109,7 +120,7 @@ def _work(args):
             if len(g) >= 4:
                 # the same graph under names whose order interleaves sibling loops / arms (families.labelings "mix")
                 try:
-                    for lab in labelings(len(g), "mix" if len(g) <= 5 else "eo"):
+                    for lab in c12_labelings(g):
                         set_labeling(lab)
                         acc.counters[f"graphs[{fam}~relabelled]"] += 1
                         explore(dump_graph, g, 1, acc, graph_case(g, fam + "~", "JLB", kind="graph"), "restructure")
@@ -146,7 +157,7 @@ def digest_corpus(tier) -> str:
         h.update(repr(dump_graph(g)).encode())
         if len(g) >= 4:
             try:
-                for lab in labelings(len(g), "mix" if len(g) <= 5 else "eo"):
+                for lab in c12_labelings(g):
                     set_labeling(lab)
                     h.update(repr(dump_graph(g)).encode())
             finally:
